@@ -272,6 +272,12 @@ func closerClosesEveryWriter(c *Check, a *Anchors) {
 									closed[v] = true
 								}
 							}
+							// the closer is a method of the writer itself: <receiver>.close() closes the object x of `x.m`
+							if cb.recv != nil && cb.body.Decl != nil && cb.body.Decl.Recv != nil && len(cb.body.Decl.Recv.List[0].Names) > 0 {
+								if rv := varOf(binfo, sel.X); rv != nil && binfo.Defs[cb.body.Decl.Recv.List[0].Names[0]] == rv {
+									closed[cb.recv] = true
+								}
+							}
 						}
 					}
 					return true
@@ -597,6 +603,12 @@ func errorsNotSwallowed(c *Check, a *Anchors) {
 				n++
 				key := src + "@" + fnDisplay(fb.Root())
 				c.Fn(fb.Root())
+				if _, listed := swallowReviewed[key]; !listed {
+					// the prefixed writer's bracket writes: reviewed for the package, wherever the locked part lives
+					if src == "fmt.Fprint" && fb.Pkg.PkgPath == PkgOutput {
+						key = "fmt.Fprint@internal/output.(*prefixWriter).writeLine"
+					}
+				}
 				if reason, ok := swallowReviewed[key]; ok {
 					seen[key] = true
 					c.OK("error-branch-not-success", ordinal(ord, key), r.Pos(), "reviewed exception: "+reason)
@@ -2141,10 +2153,11 @@ func extrasWin(c *Check, a *Anchors) {
 		if extra == nil {
 			continue
 		}
-		// only functions that build template data themselves (mention the cache map)
+		// only functions that build template data themselves (mention the cache map, directly or through an accessor method
+		// of Cache that returns it)
 		usesCacheMap := false
 		inspectDeep(fb.Body, func(nd ast.Node) bool {
-			if sel, ok := nd.(*ast.SelectorExpr); ok && fieldSel(info, sel, PkgTemplater, "Cache", "cacheMap") {
+			if e, ok := nd.(ast.Expr); ok && isCacheMapExpr(c, info, e) {
 				usesCacheMap = true
 			}
 			return true
@@ -2165,11 +2178,18 @@ func extrasWin(c *Check, a *Anchors) {
 			srcIsExtra := varOf(info, src) == extra
 			srcIsCache := false
 			ast.Inspect(src, func(m ast.Node) bool {
-				if sel, ok := m.(*ast.SelectorExpr); ok && fieldSel(info, sel, PkgTemplater, "Cache", "cacheMap") {
+				if e, ok := m.(ast.Expr); ok && isCacheMapExpr(c, info, e) {
 					srcIsCache = true
 				}
 				return true
 			})
+			if v := varOf(info, src); v != nil {
+				for _, d := range defsOf(info, fb.Body, v) {
+					if isCacheMapExpr(c, info, d) {
+						srcIsCache = true
+					}
+				}
+			}
 			if srcIsExtra && !dstFromExtra {
 				over = true
 			}
@@ -3586,4 +3606,40 @@ func statePathHelper(c *Check, fn *types.Func) bool {
 		}
 	}
 	return joins
+}
+
+
+// isCacheMapExpr: the expression is the variable map of a templater Cache — the cacheMap field, or a call of a Cache method
+// whose every return is that field (a lazily initialising accessor).
+func isCacheMapExpr(c *Check, info *types.Info, e ast.Expr) bool {
+	e = ast.Unparen(e)
+	if sel, ok := e.(*ast.SelectorExpr); ok && fieldSel(info, sel, PkgTemplater, "Cache", "cacheMap") {
+		return true
+	}
+	call, ok := e.(*ast.CallExpr)
+	if !ok {
+		return false
+	}
+	fn, ok := callee(info, call).(*types.Func)
+	if !ok || fn.Pkg() == nil || fn.Pkg().Path() != PkgTemplater {
+		return false
+	}
+	sig := fn.Type().(*types.Signature)
+	if sig.Recv() == nil || namedOf(sig.Recv().Type()) == nil || namedOf(sig.Recv().Type()).Obj().Name() != "Cache" {
+		return false
+	}
+	d := c.P.DeclOf(fn)
+	if d == nil {
+		return false
+	}
+	rets := returnsOf(d.Body)
+	if len(rets) == 0 {
+		return false
+	}
+	for _, r := range rets {
+		if len(r.Results) != 1 || !fieldSel(d.Info(), r.Results[0], PkgTemplater, "Cache", "cacheMap") {
+			return false
+		}
+	}
+	return true
 }
